@@ -3,6 +3,7 @@ import RulioProofs.Query
 /-! # Concrete instances for C03 (evaluated on the model by `simp`), used by the `example`s of `Props/C03.lean` -/
 
 namespace QueryEx
+open QSpec
 open QueryProofs
 
 theorem isVar_qx : isVar "?x" = true := by simp [isVar]
